@@ -559,6 +559,46 @@ theorem C18u_finished_once (mtu : Option Nat) (evs : List DEv) (i : Nat) :
     simp only [this, if_false] at hc
     omega
 
+/-- The idle indication of the UDPCL agent: after any history it is true exactly when every bundle
+    announced as received has been popped and every transfer handed out by `send_bundle_data` has
+    got its `send_bundle_finished` — true only when nothing is queued, and true once all of that
+    has drained. -/
+theorem C18u_idle (mtu : Option Nat) (evs : List DEv) :
+    isTransferIdle (drun { mtu := mtu } evs).1 = true ↔
+      ((announcedIds (drun { mtu := mtu } evs).2).filter
+        (fun i => !(poppedIds (drun { mtu := mtu } evs).2).contains i) = [] ∧
+       ∀ i, i < (drun { mtu := mtu } evs).1.txNext → finishedCount i (drun { mtu := mtu } evs).2 = 1) := by
+  have hq := (C18u_recv_queue mtu evs).1
+  have ht : ∀ i, TInv i (drun { mtu := mtu } evs).1 (drun { mtu := mtu } evs).2 := by
+    intro i
+    have h0 : TInv i { mtu := mtu } [] :=
+      ⟨by simp [finishedCount, txEvents, finCount], (fun t ht => by cases ht)⟩
+    have h := tinv_run i evs _ [] h0
+    simpa using h
+  generalize (drun { mtu := mtu } evs).1 = st at hq ht
+  generalize (drun { mtu := mtu } evs).2 = obs at hq ht
+  rw [← hq]
+  simp only [isTransferIdle, Bool.and_eq_true, List.isEmpty_iff]
+  constructor
+  · rintro ⟨h1, h2⟩
+    refine ⟨by simp [queueIds, h1], ?_⟩
+    intro i hi
+    have := (ht i).1
+    rw [h2] at this
+    simp only [hi, if_true, List.map_nil, List.count_nil] at this
+    omega
+  · rintro ⟨h1, h2⟩
+    refine ⟨by simpa [queueIds] using h1, ?_⟩
+    cases hql : st.txQueue with
+    | nil => rfl
+    | cons t r =>
+      exfalso
+      have hlt := (ht t.1).2 t (by rw [hql]; exact List.mem_cons_self)
+      have hc := (ht t.1).1
+      rw [h2 t.1 hlt] at hc
+      simp only [hlt, if_true, hql, List.map_cons, List.count_cons_self] at hc
+      omega
+
 /-- `send_bundle_data` hands out the ids 0, 1, 2, … as strings, one per call. -/
 theorem C18u_send_ids (st : DState) (data : Bytes) :
     (dstep st (.send data)).2 = [.sendRet st.txNext] ∧
